@@ -17,6 +17,7 @@ import (
 	"github.com/zclconf/go-cty/cty"
 
 	"hx/lib"
+	"hx/props/histgen"
 )
 
 func init() { lib.Register("C04", run) }
@@ -1012,6 +1013,7 @@ func run(cx *lib.Ctx) {
 	for i := 0; i < n; i++ {
 		runCase(cx, cx.R.U64(), i < 1)
 	}
+	histgen.Run(cx, "C04")
 	corrBody(cx)
 	corrMerged(cx)
 }
